@@ -663,6 +663,14 @@ func (m *vC12Mon) analyse(cbs []vC12CB) map[peer.ID][]vC12Fact {
 				f.Demand = isRefreshProbe(e)
 			}
 		}
+		// The refresh liveness probe evicts on ANY probe failure (rt_refresh_manager.go pingAndEvictPeers): its context
+		// is the manager's context plus the per-peer ping timeout, so a failure at that deadline ("deadline exceeded",
+		// or a read timeout coinciding with it) is the probe's own verdict on a silent peer, not a cancellation; only
+		// "context canceled" (the manager closing) is cancellation-class here.
+		if !f.Ok && f.Src == "probe" && !f.Demand && isRefreshProbe(e) && m.beforeClose(e.VT) &&
+			!strings.Contains(e.CtxErr, "canceled") && (e.PastDl || strings.Contains(e.CtxErr, "deadline")) {
+			f.Demand, f.Cancel, f.Ambig = true, false, false
+		}
 		facts[e.Peer] = append(facts[e.Peer], f)
 	}
 	for _, d := range dials {
